@@ -554,14 +554,120 @@ def externpy_worker(args):
     return hutil.export(chk)
 
 
+STRUCT_REPLAY = r"""
+# Replay for C14: a callback returning a struct; the Python function raises and onerror returns an initializer that fails after
+# some fields were written: the C caller must receive the declared error value, not a mixture.
+import sys, json
+import cffi
+case = json.loads(%r)
+ffi = cffi.FFI()
+ffi.cdef("struct T { long a, b, c; };")
+err = ffi.new("struct T *", case['error'])[0]
+def f():
+    raise ValueError
+def onerror(exc, val, tb):
+    return [case['v1'], case['v2'], object() if case['third_bad'] else case['v3']]
+cb = ffi.callback("struct T(void)", f, error=err, onerror=onerror)
+r = cb()
+got = [r.a, r.b, r.c]
+want = case['error'] if case['third_bad'] else [case['v1'], case['v2'], case['v3']]
+if got != want:
+    print('VIOLATED: the C caller received %%r, expected %%r' %% (got, want)); sys.exit(1)
+sys.exit(0)
+"""
+
+
+def structres_worker(args):
+    """a callback whose result is a struct {long a, b, c}: the function raises, onerror returns a list whose third item is valid or
+    not convertible (after two fields were written): the C caller receives onerror's value, or exactly the error= value"""
+    prop, tier, kind_ = args
+    chk = hutil.sub_check(prop, tier)
+    mod = irgen.backend()
+    L = pystubs.CffiLayout(mod)
+    F = L.flags
+    label = 'libffi:struct-result:onerror-list'
+    ex = llsym.Executor(mod, pystubs.stubs(), loop_bound=8)
+
+    def replay(case):
+        sg = lambda v: v - (1 << 64) if v >= (1 << 63) else v
+        c = {'error': [sg(case['error_%d' % i]) for i in range(3)], 'v1': sg(case['v1']), 'v2': sg(case['v2']), 'v3': sg(case['v3']),
+             'third_bad': bool(case.get('third_bad'))}
+        path = chk.write_replay('structres', STRUCT_REPLAY % json.dumps(c))
+        rc, out = common.run_replay(path, timeout=120)
+        return common.replay_verdict(rc, out), path
+
+    def h(ex):
+        py = pystubs.PyEnv(ex)
+        fn, oe = install(ex, py, L, 'long')
+        i64 = pystubs.new_ctype(ex, L, 8, F['CT_PRIMITIVE_SIGNED'] | F['CT_PRIMITIVE_FITS_LONG'], name=b'long')
+        fields = [pystubs.new_cfield(ex, L, i64, 8 * k, mask(16), mask(16)) for k in range(3)]
+        for a_, b_ in zip(fields, fields[1:]):
+            ex.mem.store(a_ + L.cf['cf_next'], b_, 8)
+        rct = pystubs.new_ctype(ex, L, 24, F['CT_STRUCT'], length=8, stuff=py.new_opaque('dict', 'PyDict_Type', items=[]), extra=fields[0],
+                                name=b'struct T')
+        sig = py.new_tuple([py.new_int(0), rct])
+        fct = pystubs.new_ctype(ex, L, 8, F['CT_FUNCTIONPTR'], stuff=sig, name=b'fn')
+        Es = [z3.BitVec('error_%d' % i, 64) for i in range(3)]
+        errmem = ex.mem.alloc(24, 'error= struct value', 'input')
+        for i, e_ in enumerate(Es):
+            ex.mem.store(errmem.base + 8 * i, e_, 8)
+        err_ob = pystubs.new_cdata(ex, L, rct, errmem.base)
+        pyfunc, onerr = py.new_opaque('function'), py.new_opaque('function')
+        info = simp(ex.call('prepare_callback_info_tuple', [fct, pyfunc, err_ob, onerr, 1]))
+        inputs = dict(('error_%d' % i, e_) for i, e_ in enumerate(Es))
+        okk = is_c(info) and info != 0 and py.exc is None
+        hutil.discharge(chk, ex, label + ':info-tuple-built', okk, inputs)
+        if not okk:
+            return
+        Vs = [z3.BitVec('v%d' % (i + 1), 64) for i in range(3)]
+        for i, v in enumerate(Vs):
+            inputs['v%d' % (i + 1)] = v
+        third_bad = ex.decide(z3.Bool('third_bad'))
+        inputs['third_bad'] = z3.If(z3.Bool('third_bad'), z3.BitVecVal(1, 8), z3.BitVecVal(0, 8))
+
+        def call(e, ob, args_, kw):
+            py.exc = 'PyExc_ValueError'
+            return 0
+
+        def call_objargs(e, ob, *a):
+            items = [py.new_int(z3.SignExt(W - 64, v)) for v in Vs[:2]]
+            items.append(py.new_opaque('object') if third_bad else py.new_int(z3.SignExt(W - 64, Vs[2])))
+            return py.new_list(items)
+        ex.stubs.update({'PyObject_Call': call, 'PyObject_CallFunctionObjArgs': call_objargs})
+        result = ex.mem.alloc(24, 'libffi result (struct T)', 'input')
+        for i in range(3):
+            ex.mem.store(result.base + 8 * i, z3.BitVec('result_garbage_%d' % i, 64), 8)
+        ptrs = ex.mem.alloc(8, 'libffi args[]', 'input')
+        ex.call('general_invoke_callback', [1, result.base, ptrs.base, info])
+        got = [bv(ex.mem.load(result.base + 8 * i, 8), 64) for i in range(3)]
+        hutil.witness(chk, ex, label + (':third-item-unconvertible' if third_bad else ':valid-list'))
+        if third_bad:
+            hutil.discharge(chk, ex, label + ':unconvertible-onerror-value=>C-receives-exactly-the-error-value',
+                            z3.And(*[g == e_ for g, e_ in zip(got, Es)]), inputs, replay=replay)
+        else:
+            hutil.discharge(chk, ex, label + ':C-receives-the-onerror-value', z3.And(*[g == v for g, v in zip(got, Vs)]), inputs, replay=replay)
+
+    def on_oob(ex2, what_, model):
+        chk.report_failure('%s: access outside the argument / result buffers: %s' % (label, what_), {}, None, None)
+    ex.on_oob = on_oob
+    res = ex.explore(h, max_paths=400)
+    hutil.finish_explore(chk, ex, res, label)
+    if not chk.witnesses:
+        chk.inconc(label + ': no path reached an obligation')
+    chk.functions = irgen.func_info(mod, sorted(ex.called))
+    return hutil.export(chk)
+
+
 def dispatch(args):
+    if args[2] == 'structres':
+        return structres_worker(args)
     return (invoke_worker if args[2] == 'invoke' else externpy_worker)(args)
 
 
 def run(chk):
     quick = chk.tier == 'quick'
     P = (chk.prop, chk.tier)
-    cases = []
+    cases = [P + ('structres',)]
     all_types = [t for t, s, sg in INTS] + ['double', 'float']
     for mode in ('libffi', 'externpy'):
         for rt in all_types:
